@@ -1,9 +1,10 @@
 (* C02/Alloc — allocation REQUESTS of the decoder as a function of what the input claims.
 
-   decInferLen (decode.base.go) and usableByteSlice (helper.go) are transcribed by hand (the
-   translator does not handle decInferLen's local const block); they are tied to the code by
-   the leaf stream of harness/cmd/c02 through the hook VerifC02DecInferLen /
-   VerifC02UsableByteSliceLen (C02/Corr.v, kind 9).
+   decInferLen (decode.base.go) and usableByteSlice (helper.go) are written by hand here; they
+   are PROVED equal, on the whole domain of their Go types, to the functions the translator
+   regenerates from the current source on every run (Gen/Leaf2.v; C02/LeafTie.v, theorem
+   C02_alloc_src_tie), and also tied to the code by the leaf stream of harness/cmd/c02 through
+   the hook VerifC02DecInferLen / VerifC02UsableByteSliceLen (C02/Corr.v, kind 9).
 
    A RUN is the tree of what one Decode call did: leaves (scalars, strings: [c] input bytes
    consumed, [a] bytes allocated) and containers (claimed length, element size, head bytes,
